@@ -43,7 +43,8 @@ Definition Bad (p rem : list byte) : Prop := forall R res, ~ SpecGoalF p (rem ++
 Definition Done (p O : list byte) : Prop := forall g, SpecGoal p g (O, g).
 (* the end of a frame: an LZ4 frame accepted by the specification, or a skippable frame *)
 Definition Fin (p O : list byte) : Prop :=
-  Done p O \/ (O = [] /\ 4 <= zlen p /\ Z.land (rd32 p) SKIP_MASK = FD_MAGIC_SKIPPABLE_START).
+  Done p O \/ (O = [] /\ 8 <= zlen p /\ Z.land (rd32 p) SKIP_MASK = FD_MAGIC_SKIPPABLE_START /\
+               zlen p = 8 + rd32 (zdrop 4 p)).
 
 (* like FrameDSound.binv, with the history relative to [ah] and the hashes / remaining size
    relative to [ax] (they differ while a decoded block waits in tmpOut) *)
@@ -65,6 +66,17 @@ Definition E_B (sk : bool) d maxb (acc0 data t g : list byte) (res : list byte *
   exists cb r2, take 4 (t ++ g) = Some (cb, r2) /\ (sk || (le_val cb =? xxh32 0 data)) = true /\
                 E_after bdec sk d maxb dict acc0 data r2 res.
 
+(* inside a skippable frame: magic number, then the 4-byte size (possibly staged in header[4..8)), then
+   that many bytes to skip *)
+Definition skinv (p : list byte) (s : dstate) : Prop :=
+  4 <= zlen p /\ Z.land (rd32 p) SKIP_MASK = FD_MAGIC_SKIPPABLE_START /\
+  match d_stage s with
+  | GetSFrameSize => zlen p = 4
+  | StoreSFrameSize => zlen p = d_tmpInSize s /\ d_tmpInTarget s = 8 /\
+                       zdrop 4 (pre (d_header s) (d_tmpInSize s)) = zdrop 4 p
+  | SkipSkippable => 8 <= zlen p /\ zlen p + d_tmpInTarget s = 8 + rd32 (zdrop 4 p)
+  | _ => False
+  end.
 Definition in_skip (st : dstage) : bool :=
   match st with GetSFrameSize | StoreSFrameSize | SkipSkippable => true | _ => false end.
 
@@ -113,8 +125,7 @@ Inductive CInv (p O : list byte) (s : dstate) : Prop :=
       d_stage s = StoreSuffix -> binv skip d maxb dict O s -> f_ccrc d = true -> d_remaining s = 0 ->
       pre (d_tmpIn s) (d_tmpInSize s) = t -> bytes_ok t = true ->
       Kc p (fun sk g => E_suffix sk d O (t ++ g)) -> CInv p O s
-  | C_skip :
-      in_skip (d_stage s) = true -> O = [] -> 4 <= zlen p -> Z.land (rd32 p) SKIP_MASK = FD_MAGIC_SKIPPABLE_START -> CInv p O s.
+  | C_skip : O = [] -> skinv p s -> CInv p O s.
 
 (* what a piece of the stage machine that does not itself consume input leaves behind
    ([pn] : consumed so far, including what its caller consumed for it) *)
@@ -1062,6 +1073,33 @@ Proof.
     unfold zlen. simpl length in *. lia.
 Qed.
 
+Lemma decodeHeader_header s src s' r : decodeHeader s true src = (s', r) -> d_header s' = d_header s.
+Proof.
+  unfold decodeHeader. intro H.
+  destruct (zlen src <? FD_minFHSize); [inversion H; subst; auto|].
+  destruct (Z.land (rd32 src) SKIP_MASK =? FD_MAGIC_SKIPPABLE_START); [inversion H; subst; ss; auto|].
+  destruct (negb (rd32 src =? FD_MAGICNUMBER)); [inversion H; subst; ss; auto|].
+  destruct (nth_error src 4); [|inversion H; subst; ss; auto].
+  destruct (nth_error src 5); [|inversion H; subst; ss; auto].
+  destruct (flg_decode _) as [e|[[[[bm bc] cs] cc] di]]; [inversion H; subst; ss; auto|].
+  destruct (zlen src <? fh_size cs di); [inversion H; subst; ss; auto|].
+  destruct (bd_decode _); [inversion H; subst; ss; auto|].
+  destruct (nth_error src _); [|inversion H; subst; ss; auto].
+  destruct (negb _); [inversion H; subst; ss; auto|].
+  inversion H; subst. destruct (cs =? 0); ss; auto.
+Qed.
+Lemma zdrop_app_l n (p x : list byte) : 0 <= n <= zlen p -> zdrop n (p ++ x) = zdrop n p ++ x.
+Proof.
+  intro H. unfold zdrop. rewrite skipn_app. replace (Z.to_nat n - length p)%nat with 0%nat by (unfold zlen in H; lia).
+  reflexivity.
+Qed.
+Lemma zdrop_app_exact (x r : list byte) : zdrop (zlen x) (x ++ r) = r.
+Proof.
+  unfold zdrop, zlen. rewrite Nat2Z.id. rewrite skipn_app, Nat.sub_diag, skipn_all. reflexivity.
+Qed.
+Lemma zdrop_all n (p : list byte) : zlen p <= n -> zdrop n p = [].
+Proof. intro H. unfold zdrop. apply skipn_all2. unfold zlen in H. lia. Qed.
+
 Lemma accept_CInv b s hd s' r :
   bytes_ok hd = true -> FD_minFHSize <= zlen hd -> decodeHeader s b hd = (s', r) -> 0 <= r ->
   d_stage s' = Init -> d_stage s <> Init -> d_remaining s = 0 -> d_hist s = dict -> d_skip s = skip ->
@@ -1149,8 +1187,11 @@ Proof.
     split; [exact Hsrc|]. split; [reflexivity|]. split; [exact Hbpc|].
     destruct D as [D|[D|[D|[D|D]]]].
     + exfalso. lia.
-    + destruct D as (_ & D1 & _ & _ & D2).
-      apply C_skip; [rewrite D1; reflexivity | reflexivity | unfold FD_minFHSize in H7; lia | exact D2].
+    + destruct D as (_ & D1 & D3 & D4 & D2).
+      pose proof (decodeHeader_header _ _ _ _ ED) as DH. ss.
+      apply C_skip; [reflexivity|]. unfold skinv. rewrite D1, D3, D4, DH.
+      split; [unfold FD_minFHSize in H7; lia|]. split; [exact D2|].
+      split; [reflexivity|]. split; [reflexivity|]. rewrite pre_full by reflexivity. reflexivity.
     + destruct D as (D & _). discriminate D.
     + destruct D as (Dst & Dsz & Dt & _ & _ & Dh & _). specialize (Dh eq_refl). ss.
       apply C_hdr; [exact Dst | reflexivity | rewrite K3 by exact Dst; exact Hrem | congruence | congruence
@@ -1197,7 +1238,8 @@ Proof.
     + destruct D as (D & _). discriminate D.
     + destruct D as (_ & D1 & _ & D2 & D3). subst r.
       assert (H4 : zlen (ztake 4 (l_src l)) = 4) by (rewrite zlen_ztake; lia).
-      apply C_skip; [rewrite D2; reflexivity | reflexivity | lia |].
+      apply C_skip; [reflexivity|]. unfold skinv. rewrite D2.
+      split; [lia|]. split; [|exact H4].
       rewrite <- D3. unfold rd32. rewrite (ztake_all 4 (ztake 4 (l_src l))) by lia. reflexivity.
     + exfalso. unfold FD_header_array_size in D. lia.
     + destruct D as (_ & Dst & _).
@@ -1217,65 +1259,95 @@ Proof.
   apply (c_getBlockHeader d maxb); [exact B|exact HK|exact Hb].
 Qed.
 
-(* ---- skippable frames: nothing is produced; the magic number stays at the front of what was consumed ---- *)
-Definition skp (p : list byte) : Prop := 4 <= zlen p /\ Z.land (rd32 p) SKIP_MASK = FD_MAGIC_SKIPPABLE_START.
-Lemma skp_app p x : skp p -> skp (p ++ x).
-Proof. intros [A B]. split; [rewrite zlen_app; pose proof (zlen_nonneg x); lia|rewrite rd32_app by exact A; exact B]. Qed.
+(* ---- skippable frames: nothing is produced; exactly magic + size + that many bytes are consumed ---- *)
+Lemma rd32_ztake4 (x : list byte) : rd32 (ztake 4 x) = rd32 x.
+Proof. unfold rd32. f_equal. f_equal. unfold ztake. rewrite firstn_firstn. reflexivity. Qed.
+Lemma rd32_size_app (p x : list byte) : 8 <= zlen p -> rd32 (zdrop 4 (p ++ x)) = rd32 (zdrop 4 p).
+Proof. intro H. rewrite zdrop_app_l by lia. apply rd32_app. rewrite zlen_zdrop; lia. Qed.
 
-Lemma u_sframeSize pn l sel : skp pn -> after pn [] l (do_sframeSize l sel).
+(* the size field is complete: [sel] holds it *)
+Lemma u_sframeSize pn l sel :
+  4 <= zlen pn -> Z.land (rd32 pn) SKIP_MASK = FD_MAGIC_SKIPPABLE_START -> zlen pn = 8 ->
+  rd32 sel = rd32 (zdrop 4 pn) -> after pn [] l (do_sframeSize l sel).
 Proof.
-  intros [A B]. unfold do_sframeSize, after. cbn [fst snd]. exists []. ss.
-  split; [reflexivity|]. split; [rewrite app_nil_r; reflexivity|]. apply C_skip; ss; auto.
+  intros A B L8 Hs. unfold do_sframeSize, after. cbn [fst snd]. exists []. ss.
+  split; [reflexivity|]. split; [rewrite app_nil_r; reflexivity|]. apply C_skip; [reflexivity|].
+  unfold skinv; ss. split; [exact A|]. split; [exact B|]. split; [lia|]. rewrite Hs. lia.
 Qed.
 
 Lemma c_storeSFrameSize p l :
-  d_stage (l_s l) = StoreSFrameSize -> skp p -> bytes_ok (l_src l) = true ->
-  0 <= d_tmpInSize (l_s l) < d_tmpInTarget (l_s l) ->
+  d_stage (l_s l) = StoreSFrameSize -> skinv p (l_s l) -> bytes_ok (l_src l) = true ->
+  4 <= d_tmpInSize (l_s l) < d_tmpInTarget (l_s l) ->
   stepr p [] l (do_storeSFrameSize l).
 Proof.
-  intros Hst Hp Hb Hs. unfold do_storeSFrameSize, hdr_write. ss.
+  intros Hst (A & B & K) Hb Hs. rewrite Hst in K. destruct K as (K1 & K2 & K3).
+  unfold do_storeSFrameSize, hdr_write. ss. rewrite K2 in *.
   pose proof (zlen_nonneg (l_src l)) as Hl.
-  set (n := Z.min (d_tmpInTarget (l_s l) - d_tmpInSize (l_s l)) (zlen (l_src l))) in *.
-  assert (Hn : 0 <= n <= zlen (l_src l) /\ n <= d_tmpInTarget (l_s l) - d_tmpInSize (l_s l)) by (unfold n; lia).
-  destruct (bytes_ok_split n _ Hb) as [Hbp _].
-  destruct (d_tmpInSize (l_s l) + n <? d_tmpInTarget (l_s l)) eqn:E.
-  - apply Z.ltb_lt in E. apply stepr_stop_stage with (x := ztake n (l_src l));
-      [lia | ss; rewrite ztake_zdrop_app; reflexivity | reflexivity | exact Hbp |].
-    destruct (skp_app p (ztake n (l_src l)) Hp) as [A B]. apply C_skip; ss; auto. rewrite Hst. reflexivity.
-  - match goal with |- stepr _ _ _ (do_sframeSize ?l1 _) =>
+  set (n := Z.min (8 - d_tmpInSize (l_s l)) (zlen (l_src l))) in *.
+  assert (Hn : 0 <= n <= zlen (l_src l) /\ n <= 8 - d_tmpInSize (l_s l)) by (unfold n; lia).
+  set (piece := ztake n (l_src l)).
+  assert (Hpl : zlen piece = n) by (unfold piece; rewrite zlen_ztake; lia).
+  destruct (bytes_ok_split n _ Hb) as [Hbp _]. fold piece in Hbp.
+  destruct (stage_facts (d_header (l_s l)) (d_tmpInSize (l_s l)) piece n _ eq_refl ltac:(lia) Hpl) as (W1 & W2 & W3).
+  assert (Hpre : zlen (pre (d_header (l_s l)) (d_tmpInSize (l_s l))) = d_tmpInSize (l_s l)) by (apply pre_length; lia).
+  assert (HZ : zdrop 4 (wr (d_header (l_s l)) (d_tmpInSize (l_s l)) piece) = zdrop 4 (p ++ piece)).
+  { rewrite W1. rewrite !zdrop_app_l by lia. rewrite K3. reflexivity. }
+  assert (A' : 4 <= zlen (p ++ piece)) by (rewrite zlen_app; lia).
+  assert (B' : Z.land (rd32 (p ++ piece)) SKIP_MASK = FD_MAGIC_SKIPPABLE_START) by (rewrite rd32_app by exact A; exact B).
+  destruct (d_tmpInSize (l_s l) + n <? 8) eqn:E.
+  - apply Z.ltb_lt in E. apply stepr_stop_stage with (x := piece);
+      [lia | ss; unfold piece; rewrite ztake_zdrop_app; reflexivity | reflexivity | exact Hbp |].
+    apply C_skip; [reflexivity|]. unfold skinv; ss. rewrite Hst.
+    split; [exact A'|]. split; [exact B'|]. split; [rewrite zlen_app; lia|]. split; [exact K2|].
+    rewrite W3. rewrite <- W1. exact HZ.
+  - apply Z.ltb_ge in E.
+    match goal with |- stepr _ _ _ (do_sframeSize ?l1 _) =>
       eapply (after_stepr p [] l l1 n); [lia|exact Hb|reflexivity|reflexivity|] end.
-    apply u_sframeSize. apply skp_app. exact Hp.
+    fold piece. apply u_sframeSize; [exact A'|exact B'|rewrite zlen_app; lia|].
+    rewrite HZ. apply rd32_ztake4.
 Qed.
 
 Lemma c_getSFrameSize p l :
-  skp p -> bytes_ok (l_src l) = true -> stepr p [] l (do_getSFrameSize l).
+  d_stage (l_s l) = GetSFrameSize -> skinv p (l_s l) -> bytes_ok (l_src l) = true -> stepr p [] l (do_getSFrameSize l).
 Proof.
-  intros Hp Hb. unfold do_getSFrameSize. pose proof (zlen_nonneg (l_src l)) as Hl.
+  intros Hst (A & B & K) Hb. rewrite Hst in K. unfold do_getSFrameSize. pose proof (zlen_nonneg (l_src l)) as Hl.
   destruct (4 <=? zlen (l_src l)) eqn:E.
   - apply Z.leb_le in E.
     eapply (after_stepr p [] l (adv l 4) 4); [lia|exact Hb|reflexivity|reflexivity|].
-    apply u_sframeSize. apply skp_app. exact Hp.
+    assert (H4 : zlen (ztake 4 (l_src l)) = 4) by (rewrite zlen_ztake; lia).
+    apply u_sframeSize.
+    + rewrite zlen_app; lia.
+    + rewrite rd32_app by exact A. exact B.
+    + rewrite zlen_app; lia.
+    + replace 4 with (zlen p) at 2 by exact K. rewrite zdrop_app_exact. reflexivity.
   - match goal with |- stepr _ _ _ (do_storeSFrameSize (with_s _ ?S)) => apply stepr_with_s with (s := S) end.
-    apply c_storeSFrameSize; ss; auto. lia.
+    apply c_storeSFrameSize; ss; auto; [|lia].
+    unfold skinv; ss. split; [exact A|]. split; [exact B|]. split; [exact K|]. split; [reflexivity|].
+    rewrite !zdrop_all; [reflexivity|lia|rewrite pre_length; lia].
 Qed.
 
 Lemma c_skipSkippable p l :
-  d_stage (l_s l) = SkipSkippable -> skp p -> bytes_ok (l_src l) = true -> 0 <= d_tmpInTarget (l_s l) ->
+  d_stage (l_s l) = SkipSkippable -> skinv p (l_s l) -> bytes_ok (l_src l) = true -> 0 <= d_tmpInTarget (l_s l) ->
   stepr p [] l (do_skipSkippable l).
 Proof.
-  intros Hst Hp Hb Ht. unfold do_skipSkippable. ss.
+  intros Hst (A & B & K) Hb Ht. rewrite Hst in K. destruct K as (K1 & K2). unfold do_skipSkippable. ss.
   pose proof (zlen_nonneg (l_src l)) as Hl.
   set (n := Z.min (d_tmpInTarget (l_s l)) (zlen (l_src l))) in *.
   assert (Hn : 0 <= n <= zlen (l_src l) /\ n <= d_tmpInTarget (l_s l)) by (unfold n; lia).
   destruct (bytes_ok_split n _ Hb) as [Hbp _].
-  destruct (skp_app p (ztake n (l_src l)) Hp) as [A B].
+  set (x := ztake n (l_src l)) in *.
+  assert (Hx : zlen x = n) by (unfold x; rewrite zlen_ztake; lia).
+  assert (A' : 8 <= zlen (p ++ x)) by (rewrite zlen_app; lia).
+  assert (B' : Z.land (rd32 (p ++ x)) SKIP_MASK = FD_MAGIC_SKIPPABLE_START) by (rewrite rd32_app by exact A; exact B).
+  assert (S' : zlen (p ++ x) + (d_tmpInTarget (l_s l) - n) = 8 + rd32 (zdrop 4 (p ++ x))).
+  { rewrite rd32_size_app by exact K1. rewrite zlen_app. lia. }
   destruct (d_tmpInTarget (l_s l) - n =? 0) eqn:E; cbn [negb].
-  - unfold stepr. cbn [fst snd Z.eqb]. split; [lia|]. exists (ztake n (l_src l)), []. ss.
-    split; [rewrite ztake_zdrop_app; reflexivity|]. split; [rewrite app_nil_r; reflexivity|]. split; [exact Hbp|].
-    right. auto.
-  - apply Z.eqb_neq in E. apply stepr_stop_stage with (x := ztake n (l_src l));
-      [lia | ss; rewrite ztake_zdrop_app; reflexivity | reflexivity | exact Hbp |].
-    apply C_skip; ss; auto. rewrite Hst. reflexivity.
+  - apply Z.eqb_eq in E. unfold stepr. cbn [fst snd Z.eqb]. split; [lia|]. exists x, []. ss.
+    split; [unfold x; rewrite ztake_zdrop_app; reflexivity|]. split; [rewrite app_nil_r; reflexivity|]. split; [exact Hbp|].
+    right. split; [reflexivity|]. split; [exact A'|]. split; [exact B'|]. lia.
+  - apply Z.eqb_neq in E. apply stepr_stop_stage with (x := x);
+      [lia | ss; unfold x; rewrite ztake_zdrop_app; reflexivity | reflexivity | exact Hbp |].
+    apply C_skip; [reflexivity|]. unfold skinv; ss. rewrite Hst. split; [lia|]. split; [exact B'|]. split; [exact A'|exact S'].
 Qed.
 
 (* ---- one iteration of the stage machine ---- *)
@@ -1289,7 +1361,7 @@ Proof.
                 | d maxb t Hst B Ht Hbt HK | d maxb acc0 data1 Hst -> B Htg Hm Hx HK
                 | d maxb acc0 data t Hst -> B EB Hd Hx Ht Hbt HK | d maxb n Hst B Htg Hn HK
                 | d maxb n t Hst B Htg Hn Ht Hbt HK | d maxb acc0 Hst HOe B Hm HK | d maxb Hst B HK
-                | d maxb t Hst B EC ER Ht Hbt HK | Hst -> Hp4 Hmg]; try rewrite Hst in *.
+                | d maxb t Hst B EC ER Ht Hbt HK | -> HS]; try rewrite Hst in *.
   - apply c_getFrameHeader; auto.
   - destruct Hi as (I1 & I2 & I3). apply c_storeFrameHeader; auto.
   - apply (c_init d maxb); auto.
@@ -1302,10 +1374,10 @@ Proof.
   - destruct Hi as (_ & I1). apply (c_flushOut o d maxb _ _ acc0); auto.
   - apply (c_getSuffix d maxb); auto.
   - destruct Hi as (_ & I1). apply (c_storeSuffix d maxb _ _ _ t); auto.
-  - assert (SK : skp p) by (split; assumption).
-    destruct (d_stage (l_s l)) eqn:E; try discriminate Hst.
+  - assert (HS' := HS). destruct HS' as (A & B & K).
+    destruct (d_stage (l_s l)) eqn:E; try contradiction.
     + apply c_getSFrameSize; auto.
-    + destruct Hi as (I1 & I2). apply c_storeSFrameSize; auto.
+    + destruct Hi as (I1 & I2). destruct K as (K1 & K2 & K3). apply c_storeSFrameSize; auto. lia.
     + apply c_skipSkippable; auto.
 Qed.
 
@@ -1426,7 +1498,7 @@ Proof.
                 | d maxb t Hst B Ht Hbt HK | d maxb acc0 data1 Hst -> B Htg Hm Hx HK
                 | d maxb acc0 data t Hst -> B EB Hd Hx Ht Hbt HK | d maxb n Hst B Htg Hn HK
                 | d maxb n t Hst B Htg Hn Ht Hbt HK | d maxb acc0 Hst HOe B Hm HK | d maxb Hst B HK
-                | d maxb t Hst B EC ER Ht Hbt HK | Hst -> Hp4 Hmg];
+                | d maxb t Hst B EC ER Ht Hbt HK | -> HS];
     try (exists c; reflexivity); apply (proj2 HK) in G.
   - eapply E_header_prefix; eauto.
   - eapply E_header_prefix; eauto.
@@ -1551,7 +1623,7 @@ Proof.
                 | d maxb t Hst B Ht Hbt HK | d maxb acc0 data1 Hst -> B Htg Hm Hx HK
                 | d maxb acc0 data t Hst -> B EB Hd Hx Ht Hbt HK | d maxb n Hst B Htg Hn HK
                 | d maxb n t Hst B Htg Hn Ht Hbt HK | d maxb acc0 Hst HOe B Hm HK | d maxb Hst B HK
-                | d maxb t Hst B EC ER Ht Hbt HK | Hst -> Hp4 Hmg]; try rewrite Hst in Hi;
+                | d maxb t Hst B EC ER Ht Hbt HK | -> HS]; try rewrite Hst in Hi;
     try (apply (proj2 HK) in G').
   - exfalso. unfold frame_decode in G. simpl in G. discriminate G.
   - exfalso. eapply hdr_incomplete; eauto.
@@ -1567,7 +1639,7 @@ Proof.
     + destruct (f_ccrc d) eqn:EC; [|reflexivity]. exfalso. apply (need_suffix _ _ _ _ _ EC) in G'. lia.
     + eapply E_suffix_csize; eauto.
   - exfalso. apply (need_suffix _ _ _ _ _ EC) in G'. rewrite app_nil_r, <- Ht, pre_length in G' by lia. lia.
-  - exfalso. rewrite (accepted_magic _ _ _ G) in Hmg. exact (magic_not_skippable Hmg).
+  - exfalso. destruct HS as (_ & Hmg & _). rewrite (accepted_magic _ _ _ G) in Hmg. exact (magic_not_skippable Hmg).
 Qed.
 
 (* ---- one call of LZ4F_decompress ---- *)
@@ -1576,14 +1648,41 @@ Definition at_start (s : dstate) : Prop :=
   d_stage s = GetFrameHeader /\ d_remaining s = 0 /\ d_hist s = dict /\ d_skip s = false.
 Definition BInv (p O : list byte) (s : dstate) : Prop := CInv p O s \/ (p = [] /\ O = [] /\ at_start s).
 
+Lemma skinv_in_skip p s : skinv p s -> in_skip (d_stage s) = true.
+Proof. intros (_ & _ & K). destruct (d_stage s); try contradiction; reflexivity. Qed.
 Lemma CInv_skip p O s : CInv p O s -> in_skip (d_stage s) = false -> d_skip s = skip.
 Proof.
-  intros C Hn. destruct C; auto;
-    try match goal with B : binv _ _ _ _ _ _ |- _ => solve [destruct B as (_ & _ & B & _); exact B] end.
-  - match goal with B : binv _ _ _ _ _ (do_init _) |- _ => destruct B as (_ & _ & B & _) end.
-    destruct (do_init_fields s) as (_ & _ & I3 & _). rewrite <- I3. assumption.
-  - match goal with B : gbinv _ _ _ _ _ |- _ => destruct B as (_ & _ & B & _); exact B end.
-  - congruence.
+  intros C Hn.
+  destruct C as [Hst -> -> Hrem Hh Hsk | Hst -> Hrem Hh Hsk Hp Hbp | d maxb Hst -> B HK | d maxb Hst B HK
+                | d maxb t Hst B Ht Hbt HK | d maxb acc0 data1 Hst -> B Htg Hm Hx HK
+                | d maxb acc0 data t Hst -> B EB Hd Hx Ht Hbt HK | d maxb n Hst B Htg Hn' HK
+                | d maxb n t Hst B Htg Hn' Ht Hbt HK | d maxb acc0 Hst HOe B Hm HK | d maxb Hst B HK
+                | d maxb t Hst B EC ER Ht Hbt HK | -> HS]; auto;
+    try solve [destruct B as (_ & _ & B & _); exact B].
+  - destruct B as (_ & _ & B & _). destruct (do_init_fields s) as (_ & _ & I3 & _). rewrite <- I3. assumption.
+  - rewrite (skinv_in_skip _ _ HS) in Hn. discriminate Hn.
+Qed.
+Lemma CInv_in_skip p O s : CInv p O s -> in_skip (d_stage s) = true -> O = [] /\ skinv p s.
+Proof.
+  intros C E.
+  destruct C as [Hst -> -> Hrem Hh Hsk | Hst -> Hrem Hh Hsk Hp Hbp | d maxb Hst -> B HK | d maxb Hst B HK
+                | d maxb t Hst B Ht Hbt HK | d maxb acc0 data1 Hst -> B Htg Hm Hx HK
+                | d maxb acc0 data t Hst -> B EB Hd Hx Ht Hbt HK | d maxb n Hst B Htg Hn' HK
+                | d maxb n t Hst B Htg Hn' Ht Hbt HK | d maxb acc0 Hst HOe B Hm HK | d maxb Hst B HK
+                | d maxb t Hst B EC ER Ht Hbt HK | -> HS]; try (rewrite Hst in E; discriminate E).
+  auto.
+Qed.
+Lemma CInv_at_gfh p O s : CInv p O s -> d_stage s = GetFrameHeader ->
+  p = [] /\ O = [] /\ d_remaining s = 0 /\ d_hist s = dict /\ d_skip s = skip.
+Proof.
+  intros C E.
+  destruct C as [Hst -> -> Hrem Hh Hsk | Hst -> Hrem Hh Hsk Hp Hbp | d maxb Hst -> B HK | d maxb Hst B HK
+                | d maxb t Hst B Ht Hbt HK | d maxb acc0 data1 Hst -> B Htg Hm Hx HK
+                | d maxb acc0 data t Hst -> B EB Hd Hx Ht Hbt HK | d maxb n Hst B Htg Hn' HK
+                | d maxb n t Hst B Htg Hn' Ht Hbt HK | d maxb acc0 Hst HOe B Hm HK | d maxb Hst B HK
+                | d maxb t Hst B EC ER Ht Hbt HK | -> HS]; try (rewrite Hst in E; discriminate E).
+  - auto.
+  - destruct HS as (_ & _ & K). rewrite E in K. contradiction.
 Qed.
 Lemma set_skip_id s : set_skip s (d_skip s || d_skip s) = s.
 Proof. destruct s. unfold set_skip. simpl. rewrite orb_diag. reflexivity. Qed.
@@ -1592,16 +1691,12 @@ Lemma CInv_enter p O s : BInv p O s -> CInv p O (set_skip s (d_skip s || skip)).
 Proof.
   intros [C|(-> & -> & H1 & H2 & H3 & H4)].
   - destruct (in_skip (d_stage s)) eqn:E.
-    + destruct C; try (rewrite H in E; discriminate E). apply C_skip; ss; auto.
+    + destruct (CInv_in_skip _ _ _ C E) as [-> HS]. apply C_skip; [reflexivity|]. unfold skinv in *; ss; exact HS.
     + pose proof (CInv_skip _ _ _ C E) as K.
       assert (Q : set_skip s (d_skip s || skip) = s) by (rewrite <- K; apply set_skip_id). rewrite Q. exact C.
   - apply C_start; ss; auto. rewrite H4. reflexivity.
 Qed.
 
-Lemma zdrop_app_exact (x r : list byte) : zdrop (zlen x) (x ++ r) = r.
-Proof.
-  unfold zdrop, zlen. rewrite Nat2Z.id. rewrite skipn_app, Nat.sub_diag, skipn_all. reflexivity.
-Qed.
 
 Lemma call_chunk s src cap o p O :
   o_skip o = skip -> wf s -> BInv p O s -> bytes_ok src = true -> 0 <= cap ->
@@ -1646,7 +1741,7 @@ Proof.
     inversion ER; subst l' v. clear ER.
     exists [], []. split; [reflexivity|]. split; [reflexivity|]. split; [exact W|].
     change (FD_minFHSize =? 0) with false. cbv iota. ss. rewrite !app_nil_r. left.
-    destruct C; try congruence; try (rewrite St in *; discriminate).
+    destruct (CInv_at_gfh _ _ _ C St) as (-> & -> & G1 & G2 & G3).
     apply C_start; ss; auto.
   - intros _. exfalso. apply NF; [|reflexivity]. unfold mu, call_fuel, l0; ss. pose proof (rank_range (d_stage s1)). lia.
 Qed.
@@ -1697,7 +1792,7 @@ Proof.
                 | d maxb t Hst B Ht Hbt HK | d maxb acc0 data1 Hst -> B Htg Hm Hx HK
                 | d maxb acc0 data t Hst -> B EB Hd Hx Ht Hbt HK | d maxb n Hst B Htg Hn HK
                 | d maxb n t Hst B Htg Hn Ht Hbt HK | d maxb acc0 Hst HOe B Hm HK | d maxb Hst B HK
-                | d maxb t Hst B EC ER Ht Hbt HK | Hst -> Hp4 Hmg];
+                | d maxb t Hst B EC ER Ht Hbt HK | -> HS];
     try (rewrite Hst; cbn; exact C0).
   - rewrite Hst. cbn. rewrite <- Hh, set_hist_id. exact C0.
   - rewrite Hst. cbn. rewrite <- Hh, set_hist_id. exact C0.
@@ -1710,7 +1805,7 @@ Proof.
     unfold binv. rewrite J1, J2, J3, J4, J5, J6.
     split; [exact B1|]. split; [exact B2|]. split; [exact B3|]. split; [|auto].
     destruct (f_indep d); [reflexivity|]. rewrite app_nil_r. reflexivity.
-  - destruct (d_stage s); try discriminate Hst; cbn; exact C0.
+  - destruct HS as (_ & _ & K). destruct (d_stage s); try contradiction; cbn; exact C0.
 Qed.
 
 Lemma BInvU_pre ud p O s : (forall d0, ud = Some d0 -> d0 = dict) -> BInvU ud p O s -> BInv p O (pre_ud ud s).
@@ -1929,13 +2024,13 @@ Proof.
   2:{ split; [discriminate|]. intro X. contradiction. }
   split; [discriminate|]. intros _.
   destruct D as (x & y & rest' & D1 & D2 & D3 & D4). cbn [app] in *. subst c.
-  destruct D4 as [D|(D5 & D6 & D7)].
+  destruct D4 as [D|(D5 & D6 & D7 & D8)].
   - specialize (D rest'). unfold SpecGoal in D. rewrite <- D1 in D.
     rewrite (frame_decode_skip_mono _ (o_skip o) _ _ _ HV) in D. inversion D; subst.
     f_equal. rewrite zlen_app. lia.
   - exfalso. (* an accepted frame does not begin with a skippable magic number *)
     pose proof (accepted_magic _ _ _ _ _ HV) as Hrd.
-    rewrite D1 in Hrd. rewrite rd32_app in Hrd by exact D6. rewrite Hrd in D7. exact (magic_not_skippable D7).
+    rewrite D1 in Hrd. rewrite rd32_app in Hrd by lia. rewrite Hrd in D7. exact (magic_not_skippable D7).
 Qed.
 
 (* ... and the calls do come to an end: every call that does not end the frame consumes or
@@ -2012,17 +2107,18 @@ Theorem chunked_sound_gen : forall k s data ns caps content consumed,
   drive_gen bdec ud o k s data ns caps [] 0 = VComplete content consumed ->
   zlen content < 18446744073709551616 ->
   (exists rest, frame_decode bdec (o_skip o) dict data = Some (content, rest) /\ consumed = zlen data - zlen rest)
-  \/ (content = [] /\ 4 <= consumed <= zlen data /\ Z.land (rd32 data) SKIP_MASK = FD_MAGIC_SKIPPABLE_START).
+  \/ (content = [] /\ Z.land (rd32 data) SKIP_MASK = FD_MAGIC_SKIPPABLE_START /\
+      consumed = 8 + rd32 (zdrop 4 data) /\ consumed <= zlen data).
 Proof.
   intros k s data ns caps content consumed Hwf H1 H2 H3 H4 Hb Hcaps H Hlen.
   assert (HB : BInvU bdec (o_skip o) dict ud [] [] s) by (right; auto 10).
   destruct (drive_chunk k s data ns caps [] 0 [] [] content consumed Hwf HB Hb Hcaps H ltac:(unfold zlen at 1 3; simpl length; lia))
     as (x & y & rest & D1 & D2 & D3 & D4).
-  cbn [app] in *. subst content. destruct D4 as [D|(D5 & D6 & D7)].
+  cbn [app] in *. subst content. destruct D4 as [D|(D5 & D6 & D7 & D8)].
   - left. exists rest. split; [rewrite D1; apply D|]. rewrite D3, D1, zlen_app. lia.
-  - right. split; [exact D5|]. split.
+  - right. split; [exact D5|]. split; [rewrite D1, rd32_app by lia; exact D7|]. split.
+    + rewrite D3, D1, rd32_size_app by exact D6. lia.
     + rewrite D3, D1, zlen_app. pose proof (zlen_nonneg rest). lia.
-    + rewrite D1, rd32_app by exact D6. exact D7.
 Qed.
 (* Chunking independence (non-NULL destination): a valid frame offered in ANY
    pieces of >= 1 byte, with ANY capacities >= 1, is decoded to the specified content, and
@@ -2059,7 +2155,8 @@ Theorem chunked_sound : forall bdec o dict k s data ns caps content consumed,
   drive bdec o k s data ns caps [] 0 = VComplete content consumed ->
   zlen content < 18446744073709551616 ->
   (exists rest, frame_decode bdec (o_skip o) dict data = Some (content, rest) /\ consumed = zlen data - zlen rest)
-  \/ (content = [] /\ 4 <= consumed <= zlen data /\ Z.land (rd32 data) SKIP_MASK = FD_MAGIC_SKIPPABLE_START).
+  \/ (content = [] /\ Z.land (rd32 data) SKIP_MASK = FD_MAGIC_SKIPPABLE_START /\
+      consumed = 8 + rd32 (zdrop 4 data) /\ consumed <= zlen data).
 Proof.
   intros bdec o dict k s data ns caps content consumed Hwf H1 H2 H3 H4 Hb Hcaps H Hlen.
   rewrite <- drive_gen_none in H.
@@ -2098,7 +2195,8 @@ Theorem chunked_sound_usingDict : forall bdec o dict k s data ns caps content co
   drive_usingDict bdec dict o k s data ns caps [] 0 = VComplete content consumed ->
   zlen content < 18446744073709551616 ->
   (exists rest, frame_decode bdec (o_skip o) dict data = Some (content, rest) /\ consumed = zlen data - zlen rest)
-  \/ (content = [] /\ 4 <= consumed <= zlen data /\ Z.land (rd32 data) SKIP_MASK = FD_MAGIC_SKIPPABLE_START).
+  \/ (content = [] /\ Z.land (rd32 data) SKIP_MASK = FD_MAGIC_SKIPPABLE_START /\
+      consumed = 8 + rd32 (zdrop 4 data) /\ consumed <= zlen data).
 Proof.
   intros bdec o dict k s data ns caps content consumed Hwf H1 H2 H4 Hb Hcaps H Hlen.
   refine (chunked_sound_gen bdec o dict (Some dict) (ud_some dict) k s data ns caps content consumed Hwf H1 H2 _ H4 Hb Hcaps H Hlen).
